@@ -42,6 +42,9 @@ CHECKS = {
  "C05": ("exploration", "exhaustive single-point semantic mutation of every configuration, one operator per identity-bearing field at every applicable position; ID inequality and UUID distinctness as oracle",
          "For every configuration: change the processor of each node, every parameter leaf / key / list element at any depth, delete / duplicate / swap nodes, and for sweeps the wrapped processor, each expression (constant, variable, operator, function, swapped operands of non-commutative operators; grid-equal mutants discarded), every field of every variable domain incl. each element of each sequence (also the middle of a 9-element one), mode, broadcast and collection. Each mutant must change semantic ID, config ID and the affected node's UUID or node semantic ID; all node UUIDs in every pipeline must be pairwise distinct.",
          "context_key is not an identity-bearing field per the property; expression equivalence decided on the integer grid {-2..3}^3", "3 C05"),
+ "C09": ("exploration", "enumerated (pipeline, run_space) launches through the real CLI with a failing run at every index; each run compared with a standalone CLI run of the same context; lifecycle grammar and ID relations checked under rewrites and single-point plan mutations",
+         "Three pipelines (with probe, conditional failure, per-run sink file; one with a sweep whose domain comes from the run context) x five run-space shapes (zip, two blocks, product, per-run list values, csv source) x run counts x failing run at every index x file/directory output are launched through semantiva.cli.main. Runs must happen in plan order, each run's trace (minus volatile fields and run-space foreign keys) and sink output must equal a standalone  of that run's context, the launch must be bracketed by exactly one run_space_start / run_space_end with truthful counts also on failure, every pipeline_start must carry launch id, attempt, 0-based index and context; the spec ID must equal the one  prints, survive cosmetic rewrites, change under every single-point plan mutation and block reordering; idempotency-key launch ids must be reproducible and key/plan sensitive, generated ids distinct, explicit ids and attempts honoured, inputs id content- but not mtime-sensitive.",
+         "CLI driven in-process; gc.collect() stands in for interpreter exit; volatile-field list as documented", "3 C09"),
 }
 NA = []
 def main():
